@@ -58,8 +58,11 @@ ResetTo(r) ==
 Reset == Is("Reset") /\ ResetTo(E)
 
 Mon(t) == LET r == tasks'[t] IN
-  Mixed(r) => PrintT(<<"MON", ToJson([k |-> "mix", sess |-> Rec[l].sess, t |-> t, rk |-> r.rk,
-                                       snap |-> r.snapVer, read |-> r.readVer, conv |-> r.convVer])>>)
+  /\ Mixed(r) => PrintT(<<"MON", ToJson([k |-> "mix", sess |-> Rec[l].sess, t |-> t, rk |-> r.rk,
+                                          snap |-> r.snapVer, read |-> r.readVer, conv |-> r.convVer])>>)
+  \* AnswerContent as a monitor: an ok answer that is not Ans(kind, snapshot text); `mixed` says whether the model explains it
+  /\ (r.kind = "req" /\ r.res = "ok" /\ ~RightAnswer(r)) =>
+        PrintT(<<"MON", ToJson([k |-> "ans", sess |-> Rec[l].sess, t |-> t, rk |-> r.rk, mixed |-> Mixed(r)])>>)
 
 Logged ==
   \/ Reset
@@ -75,7 +78,11 @@ Logged ==
   \/ (Is("TaskStart") /\ T_Start(E.t))
   \/ (Is("ReadVfs") /\ E.t \in DOMAIN tasks /\ vfsText[tasks[E.t].d] = Tok(E.tok) /\ T_ReadVfs(E.t))
   \/ (Is("QueryEnd") /\ E.res = "cancelled" /\ T_QueryStep(E.t))
-  \/ (Is("QueryEnd") /\ E.res # "cancelled" /\ T_QueryDone(E.t) /\ tasks'[E.t].res = E.res)
+  \* cm = content class computed by the driver: the answer equals / differs from the reference answer for the
+  \* workspace the request was issued against; bound to the model's abstract answer and judged by Mon
+  \/ (Is("QueryEnd") /\ E.res # "cancelled" /\ T_QueryDone(E.t) /\ tasks'[E.t].res = E.res
+        /\ (E.res = "ok" => tasks'[E.t].ans = IF E.cm = "mismatch" THEN Wrong(tasks[E.t].rk)
+                                               ELSE Ans(tasks[E.t].rk, tasks[E.t].snapText)))
   \/ (Is("ConvertVfs") /\ E.t \in DOMAIN tasks /\ vfsText[tasks[E.t].d] = Tok(E.tok) /\ T_ConvertWithVfs(E.t))
   \/ (Is("TaskReturn") /\ E.t \in DOMAIN tasks /\ tasks[E.t].st = "ret"
         /\ (T_Return(E.t) \/ D_Return(E.t)) /\ tasks'[E.t].res = E.res /\ Mon(E.t))
